@@ -256,6 +256,19 @@ theorem apply_seitz_eq_apply (r0 r1 r2 r3 r4 r5 r6 r7 r8 : Int) (t0 t1 t2 a b c 
       = apply3 ⟨[r0, r1, r2, r3, r4, r5, r6, r7, r8], [t0, t1, t2]⟩ [a, b, c] ++ [1] := by
   simp [apply4, apply3, rows3, List.zipWith]
 
+/-- general homogeneous coordinates: a direction (w = 0) is only rotated, and for w ≠ 0 the vector `(w·a, w·b, w·c, w)` — another
+name of the point `(a, b, c)` — is mapped to `w` times the image of that point, with the same `w` -/
+theorem apply_seitz_direction (r0 r1 r2 r3 r4 r5 r6 r7 r8 : Int) (t0 t1 t2 a b c : ℚ) :
+    apply4 ⟨[r0, r1, r2, r3, r4, r5, r6, r7, r8], [t0, t1, t2]⟩ [a, b, c, 0]
+      = apply3 ⟨[r0, r1, r2, r3, r4, r5, r6, r7, r8], [0, 0, 0]⟩ [a, b, c] ++ [0] := by
+  simp [apply4, apply3, rows3, List.zipWith]
+
+theorem apply_seitz_homogeneous (r0 r1 r2 r3 r4 r5 r6 r7 r8 : Int) (t0 t1 t2 a b c w : ℚ) :
+    apply4 ⟨[r0, r1, r2, r3, r4, r5, r6, r7, r8], [t0, t1, t2]⟩ [w * a, w * b, w * c, w]
+      = (apply3 ⟨[r0, r1, r2, r3, r4, r5, r6, r7, r8], [t0, t1, t2]⟩ [a, b, c]).map (w * ·) ++ [w] := by
+  simp only [apply4, apply3, rows3, List.zipWith, List.map, dot3, List.foldl, List.cons_append, List.nil_append, List.cons.injEq, and_true]
+  refine ⟨?_, ?_, ?_⟩ <;> ring
+
 open Matrix in
 /-- the Cartesian form built by `Crystal.cartesian_symmetry_operations`, `(Dᵀ·(R·D⁻ᵀ))ᵀ` with translation
 `t·D`, maps the Cartesian image of a fractional point to the Cartesian image of the transformed point —
